@@ -35,6 +35,24 @@ def _widths(ctx):
     n = min(-(-(2 ** acc) // 255), 2 ** cnt)      # smallest n with 255 * n >= 2^acc, or not fitting the counter
     res["coverage"] = {"leaf_acc_bits": acc, "leaf_count_bits": cnt, "max_pixels": max_pixels,
                        "smallest_overflowing_pixel_count": n}
+    # the palette index carried by a k-d node (field type and casts, Gen/TabOctree.v kd_index_bits): when it cannot hold
+    # every index of a palette of max_pixels entries, the smallest failing input is a palette of 2^bits + 1 distinct
+    # colours queried with its last colour (the index wraps to 0); a replayable `kd` case, when it is small enough
+    kib = vals.get("kd_index_bits")
+    if kib is None:
+        return broken("accumulator widths cannot be checked: kd_index_bits not found")
+    res["coverage"]["kd_index_bits"] = kib
+    if 2 ** kib <= max_pixels:
+        m_ = 2 ** kib + 1
+        what = ("the k-d node carries palette indices in %d bits: ColorPalette::new of %d distinct colours, find(the last "
+                "colour) returns an index that does not name the colour returned" % (kib, m_))
+        if kib <= 16:
+            pal = [[i % 256, (i // 256) % 256, 7] for i in range(m_)]
+            res["violations"].append({"kind": "failing-input", "what": what,
+                                      "case": {"kind": "kd", "pal": pal, "qs": [pal[-1], pal[0], pal[2 ** kib - 1]]}})
+        else:
+            res["violations"].append({"kind": "broken-correspondence", "what": what + "; too large to write down",
+                                      "case": {"kind": "kd-index-width", "kd_index_bits": kib}})
     if n > max_pixels:
         return res                                  # adequate: nothing to report
     case = {"kind": "acc", "pixels": n, "colour": [255, 255, 255], "palette_size": n // 199 + 1,
